@@ -47,8 +47,40 @@ def _vac_fn(item_text, sh, name, requires):
         name, generics, params, where, req.strip().rstrip(','))
 
 
+def _slice_item(repo, cfg):
+    """statement slice: the text between two anchors inside a real fn, wrapped as a fn whose signature
+    (the slice's free variables, type-checked by rustc when Verus compiles the unit) is given in the
+    unit. Only the wrapper head/tail are hand-written; the body is the repository's text."""
+    src = cfg['src']
+    host = X.find_item(repo, src['in'])
+    ms = list(re.finditer(src['from'], host.raw, flags=re.S))
+    if len(ms) != 1:
+        raise Undecided('slice anchor `from` /%s/ matched %d times in %s' % (src['from'], len(ms), host.qual))
+    a = ms[0].start()
+    me = list(re.finditer(src['to'], host.raw[a:], flags=re.S))
+    if not me:
+        raise Undecided('slice anchor `to` /%s/ not found after `from` in %s' % (src['to'], host.qual))
+    b = a + me[0].end()
+    full = X.read_source(repo, src['in']['file'])
+    it = X.Item(host.file, full, host.start + a, host.start + b, 'fn', src['name'], None)
+    it.slice_of = host.qual
+    it.raw_slice = it.raw
+    it.text = src['head'].rstrip() + ' {\n' + it.raw + '\n' + src.get('tail', '') + '\n}'
+    it.dropped.append('slice of %s: everything outside /%s/ .. /%s/' % (host.qual, src['from'], src['to']))
+    return it
+
+
 def build_item(repo, key, cfg, mutate=None):
-    it = X.find_item(repo, cfg['src'])
+    if cfg['src'].get('kind') == 'slice':
+        it = _slice_item(repo, cfg)
+        if mutate:
+            new, n = re.subn(mutate[1], mutate[2], it.text, count=1, flags=re.S)
+            if n != 1 or new == it.text:
+                raise Undecided('mutant pattern /%s/ does not match %s' % (mutate[1], key))
+            it.text = new
+            mutate = None
+    else:
+        it = X.find_item(repo, cfg['src'])
     it.key = key
     if mutate:
         new, n = re.subn(mutate[1], mutate[2], it.raw, count=1, flags=re.S)
@@ -57,7 +89,7 @@ def build_item(repo, key, cfg, mutate=None):
         it.text = new
     it.vac_text = ''
     rules = list(cfg.get('rules', []))
-    if cfg.get('pub', True) and it.kind in ('fn', 'const') and not it.raw.lstrip().startswith('pub '):
+    if cfg.get('pub', True) and it.kind in ('fn', 'const') and not it.text.lstrip().startswith('pub '):
         rules = rules + ['vis-pub']
     R.apply_rules(it, rules)
     if it.kind != 'fn':
@@ -88,6 +120,16 @@ def build_item(repo, key, cfg, mutate=None):
     for i, inv in loops.items():
         pos = sh.loops[i][1]
         edits.append((pos, pos, '\n' + inv.strip() + '\n'))
+    for i, nm in cfg.get('iter_names', {}).items():
+        # Verus annotation only: `for x in E {` -> `for x in <nm>: E {` names the ghost iterator
+        if i >= len(sh.loops):
+            raise Undecided('%s: iter_names addresses loop #%d but the fn has %d loops' % (key, i, len(sh.loops)))
+        kwpos, bodypos = sh.loops[i]
+        head = it.text[kwpos:bodypos]
+        m = re.match(r'for\s+.*?\s+in\s+', head, flags=re.S)
+        if not m:
+            raise Undecided('%s: loop #%d is not a for loop' % (key, i))
+        edits.append((kwpos + m.end(), kwpos + m.end(), nm + ': '))
     for anchor, where, txt in cfg.get('proof', []):
         ms = list(re.finditer(anchor, it.text))
         if len(ms) != 1:
